@@ -42,12 +42,12 @@ PathTagTitle(pid) == "/" \o SegText(PathTab[pid].segs[1])
 PathTagName(pid) == "@" \o SegText(PathTab[pid].segs[1])
 
 \* ---- schemas --------------------------------------------------------------
-Sch(notation, root, rtype, uses, enums) ==
-  [notation |-> notation, root |-> root, rtype |-> rtype, uses |-> uses, enums |-> enums]
-PseudoSch(n) == Sch(n, "", "", {}, {})
-RefSch(t) == IF t = "[@t1]" THEN Sch("jsight", "array", "array", {"@t1"}, {})
-             ELSE Sch("jsight", "reference", t, {t}, {})
-BodySch(b) == Sch("jsight", BodyTab[b].root, BodyTab[b].rtype, BodyTab[b].uses, BodyTab[b].enums)
+Sch(notation, root, rtype, uses, enums, props) ==
+  [notation |-> notation, root |-> root, rtype |-> rtype, uses |-> uses, enums |-> enums, props |-> props]
+PseudoSch(n) == Sch(n, "", "", {}, {}, <<>>)
+RefSch(t) == IF t = "[@t1]" THEN Sch("jsight", "array", "array", {"@t1"}, {}, <<[key |-> "", tt |-> "reference", ty |-> "@t1"]>>)
+             ELSE Sch("jsight", "reference", t, {t}, {}, <<>>)
+BodySch(b) == Sch("jsight", BodyTab[b].root, BodyTab[b].rtype, BodyTab[b].uses, BodyTab[b].enums, BodyTab[b].props)
 
 \* ---- the catalog value ----------------------------------------------------
 EmptyCat == [res |-> "ok", err |-> [cls |-> "", node |-> 0, where |-> "kw"],
@@ -124,9 +124,25 @@ CollectPaths(C, X, js, i, prevParent) ==
   IF i > Len(js) \/ C.res # "ok" THEN C
   ELSE LET j == js[i]  n == X.nodes[j] IN
        IF n.a # "" THEN CErr(C, "annotation", j, "kw")
+       ELSE IF n.parent # 0 /\ PathIdOf(X, n.parent) # "" /\ (\E x \in 1..Len(Params(PathIdOf(X, n.parent))) : Params(PathIdOf(X, n.parent))[x].name = "")
+            THEN CErr(C, "emptyparam", j, "kw")                    \* the path the Path directive describes is parsed here, errors stand on Path
+       ELSE IF n.parent # 0 /\ PathIdOf(X, n.parent) # "" /\ HasDupParam(PathIdOf(X, n.parent)) THEN CErr(C, "dupparam", j, "kw")
        ELSE IF n.parent = 0 THEN CErr(C, "noparent", j, "kw")
-       ELSE IF prevParent # 0 /\ X.nodes[prevParent].tok = X.nodes[n.parent].tok THEN CErr(C, "notunique", j, "kw")
+       ELSE IF prevParent # 0 /\ prevParent = n.parent THEN CErr(C, "notunique", j, "kw")   \* the same parent directive (not: the same place in the text -- pasted copies share that)
        ELSE CollectPaths([C EXCEPT !.rawPaths = Append(@, [node |-> j, parent |-> n.parent])], X, js, i + 1, n.parent)
+
+\* addMissedUndefindedPathVariables (end of the compile phase): ROOT-level URL / HTTP-method directives that no Path
+\* directive belongs to have their path parsed here -- a missing path, an empty or a repeated {parameter} is reported
+\* before anything of the build phase
+RECURSIVE MissedPaths(_, _, _, _)
+MissedPaths(C, X, js, i) ==
+  IF i > Len(js) \/ C.res # "ok" THEN C
+  ELSE LET j == js[i]  n == X.nodes[j]  pid == PathIdOf(X, j) IN
+       IF n.k \notin (Methods \cup {"URL"}) \/ KidsOfKind(X, j, "Path") # <<>> THEN MissedPaths(C, X, js, i + 1)
+       ELSE IF pid = "" THEN CErr(C, "pathnotfound", j, "kw")
+       ELSE IF \E x \in 1..Len(Params(pid)) : Params(pid)[x].name = "" THEN CErr(C, "emptyparam", j, "kw")
+       ELSE IF HasDupParam(pid) THEN CErr(C, "dupparam", j, "kw")
+       ELSE MissedPaths(C, X, js, i + 1)
 
 \* ---- schema checks at add time ---------------------------------------------
 \* returns "" or an error class
@@ -412,8 +428,9 @@ RunCatalog(T, X) ==
            C3 == CollectTypes([C2 EXCEPT !.declared = TypeDeclNames(X)], X, RootsOfKind(X, "TYPE"), 1, {})
            C4 == CheckTypes(C3, X, RootsOfKind(X, "TYPE"), 1)
            C5 == CollectPaths(C4, X, PathNodes(X), 1, 0)
-           C6 == IF C5.res = "ok" /\ X.nodes # <<>> /\ X.nodes[Kids(X, 0)[1]].k # "JSIGHT"
-                 THEN CErr(C5, "jsightfirst", Kids(X, 0)[1], "kw") ELSE C5
+           C5b == MissedPaths(C5, X, Kids(X, 0), 1)
+           C6 == IF C5b.res = "ok" /\ X.nodes # <<>> /\ X.nodes[Kids(X, 0)[1]].k # "JSIGHT"
+                 THEN CErr(C5b, "jsightfirst", Kids(X, 0)[1], "kw") ELSE C5b
            C7 == AddFrom(C6, X, 1)
            C8 == Pieces(C7, X, 1)
        IN Validate(C8)
@@ -422,7 +439,7 @@ RunCatalog(T, X) ==
 ErrTok(X, C) == IF C.err.node < 0 THEN -C.err.node ELSE IF C.err.node = 0 THEN 0 ELSE X.nodes[C.err.node].tok
 
 \* ---- what the JSON must contain ------------------------------------------------------
-SchJ(s) == [notation |-> s.notation, root |-> s.root, rtype |-> s.rtype, uses |-> s.uses, uenums |-> s.enums]
+SchJ(s) == [notation |-> s.notation, root |-> s.root, rtype |-> s.rtype, uses |-> s.uses, uenums |-> s.enums, props |-> s.props]
 Opt(x, f(_)) == IF x = <<>> THEN <<>> ELSE <<f(x[1])>>
 Skeleton(C) ==
   [jsight |-> C.jsight,
